@@ -178,7 +178,10 @@ class Node(object):
             self._children.insert(index, child)
             child.parent = self
 
-        if self.nsmap == child.nsmap:
+        # Share the map only when it is the same mapping in the same key order:
+        # equal dicts may list their prefixes differently, and that order is
+        # what the child serialises
+        if self.nsmap == child.nsmap and list(self.nsmap) == list(child.nsmap):
             child.nsmap = self.nsmap
         else:
             for prefix in self.nsmap:
